@@ -122,6 +122,8 @@ func verifyFunction(w *World, specs *Specs, ct *Contract, inst map[string]string
 		res.Obls = c.obls
 	}()
 	f := &Frame{c: c, fn: src, info: src.Pkg.TypesInfo, top: true, contract: ct, tsubst: map[*types.TypeParam]types.Type{}}
+	c.fnSrc = src
+	c.tsubst = f.tsubst
 	sig := src.Obj.Type().(*types.Signature)
 	typeArgs := map[string]types.Type{}
 	tps := sig.TypeParams()
@@ -208,6 +210,8 @@ func verifyFunction(w *World, specs *Specs, ct *Contract, inst map[string]string
 			o := f.oblige(ex.st, "ensures", fmt.Sprintf("%s@exit%d", e.Label, ei), t, ex.pos, e.Src)
 			if o != nil {
 				o.Outputs = outs
+				ec := e
+				o.Clause = &ec
 			}
 		}
 		// frame: pointer parameters not named in modifies keep their pointee
